@@ -86,6 +86,26 @@ def _wraps(i):
     return i % 3 == 2
 
 
+def _scoped(i):
+    return i % 5 == 1
+
+
+def _none_plan(case, i):
+    """(function name, term) of one invocation that returns None (every fifth case), or None."""
+    if i % 5 != 0:
+        return None
+    _, calls = mapgen.oracle(case)
+    for f in case["funcs"]:
+        if (f["mapspec"] and len(f["outs"]) == 1 and not f["internal_shape"] and len(calls[f["name"]]) >= 2
+                and any(isinstance(m, list) for m in f["modes"].values())):
+            return f["name"], calls[f["name"]][0][1]
+    return None
+
+
+def _unscope(obj):
+    return json.loads(json.dumps(obj).replace("sc.", ""))
+
+
 def _run_child(case, cfg, i, folder, out, use_pool):
     sys.stdout.flush()
     sys.stderr.flush()
@@ -101,14 +121,21 @@ def _run_child(case, cfg, i, folder, out, use_pool):
                     import __main__
                     exec(SAMPLE_SRC, __main__.__dict__)  # noqa: S102
                     inputs = {k: (__main__.Sample(v) if isinstance(v, str) else v) for k, v in inputs.items()}
-                pipeline = mapgen.build_pipeline(case, extra=extra)
+                npl = _none_plan(case, i)
+                pipeline = mapgen.build_pipeline(case, extra=extra, fault=({npl[0]: {"none": {npl[1]: 1}}} if npl else None))
+                S = (lambda n: n)
+                if _scoped(i):
+                    pipeline.update_scope("sc", "*", "*")
+                    S = (lambda n: tuple(f"sc.{x}" for x in n) if isinstance(n, tuple) else f"sc.{n}")
+                    inputs = {S(k): x for k, x in inputs.items()}
                 if i % 4 == 3:
                     # the folder (and this process) already served ANOTHER run with other input values, which was loaded
                     try:
                         old = {k: ([str(y) + "~old" for y in x] if isinstance(x, list) else x) for k, x in inputs.items()}
-                        pipeline.map(old, run_folder=folder, internal_shapes=mapgen.internal_shapes_arg(case),
-                                     storage=storage_arg(case, cfg, i), parallel=False)
-                        loader04.describe_folder(folder, [o for f in case["funcs"] for o in f["outs"]])
+                        if not _scoped(i):
+                            pipeline.map(old, run_folder=folder, internal_shapes=mapgen.internal_shapes_arg(case),
+                                         storage=storage_arg(case, cfg, i), parallel=False)
+                            loader04.describe_folder(folder, [o for f in case["funcs"] for o in f["outs"]])
                     except Exception:  # noqa: BLE001
                         pass
                 kw = {"parallel": False}
@@ -120,10 +147,14 @@ def _run_child(case, cfg, i, folder, out, use_pool):
                     kw = {"executor": ex}
                 res = {}
                 try:
-                    r = pipeline.map(inputs, run_folder=folder, internal_shapes=mapgen.internal_shapes_arg(case),
-                                     storage=storage_arg(case, cfg, i), persist_memory=True, **kw)
+                    st_arg = storage_arg(case, cfg, i)
+                    if isinstance(st_arg, dict):
+                        st_arg = {(S(k) if k != "" else k): x for k, x in st_arg.items()}
+                    ish = mapgen.internal_shapes_arg(case)
+                    r = pipeline.map(inputs, run_folder=folder, internal_shapes=({S(k): x for k, x in ish.items()} if ish else None),
+                                     storage=st_arg, persist_memory=True, **kw)
                     res["results"] = {k: probes.render(x.output) for k, x in r.items()}
-                    res["same_process"] = loader04.describe_folder(folder, [o for f in case["funcs"] for o in f["outs"]])
+                    res["same_process"] = loader04.describe_folder(folder, [S(o) for f in case["funcs"] for o in f["outs"]])
                     code = 0
                 except Exception as e:  # noqa: BLE001
                     res["exc"] = f"{type(e).__name__}: {str(e)[:200]}"
@@ -204,7 +235,8 @@ def compare(v, case, cfg, i, env, run, fresh, w):
     v.count("xarray_compared")
     if xs != xf:
         v.bad("xarray:same-vs-fresh", f"load_xarray_dataset differs between running and fresh process: {str(xs)[:150]} vs {str(xf)[:150]}", **w)
-    elif isinstance(xf, dict) and not dflt:
+    elif isinstance(xf, dict) and not dflt and not _none_plan(case, i):
+        # (xarray itself turns a None element of an object array into NaN: not judged for the None-element cases)
         v.count("xarray_loaded")
         for o in outs:
             if o in xf["vars"] and xf["vars"][o][1] != probes.render(env[o]):
@@ -219,7 +251,10 @@ def run_case(desc):
         jobs, meta = [], {}
         for i in range(desc["start"], desc["start"] + desc["n"]):
             case = mapgen.case_from_seed(desc["seed"], i)
-            env, _ = mapgen.oracle(case)
+            npl = _none_plan(case, i)
+            env, _ = mapgen.oracle(case, none_terms=({npl[1]} if npl else ()))
+            if npl:
+                v.count("cases_with_a_None_valued_element")
             cfgs = CONFIGS if i % 3 == 0 else [CONFIGS[i % 5], CONFIGS[(i + 2) % 5]]
             for cfg in cfgs:
                 jid = f"{i}-{cfg}"
@@ -237,7 +272,11 @@ def run_case(desc):
                 v.count(f"folders:{cfg}")
                 if _wraps(i) and any(r["kind"] == "scalar" for r in case["roots"].values()):
                     v.count("folders_with_main_class_instances")
-                jobs.append({"id": jid, "folder": folder, "outputs": [o for f in case["funcs"] for o in f["outs"]]})
+                pre = "sc." if _scoped(i) else ""
+                jobs.append({"id": jid, "folder": folder, "outputs": [pre + o for f in case["funcs"] for o in f["outs"]]})
+                if _scoped(i):
+                    run = _unscope(run)
+                    v.count("folders_with_scoped_names")
                 meta[jid] = (case, cfg, i, env, run)
         if jobs:
             jf, of = os.path.join(scratch, "jobs.json"), os.path.join(scratch, "fresh.json")
@@ -256,7 +295,7 @@ def run_case(desc):
                 v.count("folders_reloaded_fresh")
                 v.count(f"fresh:{cfg}")
                 w = dict(case=mapgen.describe(case), storage=str(storage_arg(case, cfg, i)), pool=(i % 4 == 1))
-                compare(v, case, cfg, i, env, run, fresh[jid], w)
+                compare(v, case, cfg, i, env, run, _unscope(fresh[jid]) if _scoped(i) else fresh[jid], w)
                 if mapgen.nontrivial(case):
                     keys.append(mapgen.signature(case) + "|" + cfg)
                 if sample is None:
@@ -270,6 +309,8 @@ def finalize(agg, tier, seed):
     for cfg in CONFIGS:
         if agg.counters.get(f"fresh:{cfg}", 0) < (30 if tier == "quick" else 100):
             floors.append(f"only {agg.counters.get(f'fresh:{cfg}', 0)} folders reloaded in a fresh process for {cfg}")
+    if agg.counters.get("folders_with_scoped_names", 0) < 10 or agg.counters.get("cases_with_a_None_valued_element", 0) < 5:
+        floors.append("too few folders with scoped names / cases with a None-valued element")
     if agg.counters.get("skipped_run_refused", 0) * 3 > max(1, agg.counters.get("folders_written", 0)):
         floors.append("more than a quarter of the runs were refused (see C01)")
     return floors, {}
